@@ -181,7 +181,7 @@ PLAN = {
              "`window_assigned` of the contract proved in pdi_config; ESC hardware semantics assumed",
     ),
     "C09": dict(
-        verus=["init_addr", "state_wait", "eeprom_device"], kani=["eeprom_alias"], assumptions=['the devices are not modelled: register writes and reads are observed through uninterpreted predicates', "SubDevice::new's front part (wait for INIT, EEPROM ownership, identity, name) is cut off the fragment"], level="proof",
+        verus=["init_addr", "state_wait", "eeprom_device"], kani=["eeprom_alias", "groups"], assumptions=['the devices are not modelled: register writes and reads are observed through uninterpreted predicates', "SubDevice::new's front part (wait for INIT, EEPROM ownership, identity, name) is cut off the fragment"], level="proof",
         claim="the two per-position loops of MainDevice::init, verbatim fragments (Verus, any n): Ok => the device at EVERY ring position i < n was sent "
               "APWR(auto-increment address 0-i, register 0x0010) <- 0x1000+i, the addresses are pairwise distinct; then exactly n SubDevice::new(i, 0x1000+i) "
               "in ring order are stored; n > MAX_SUBDEVICES is Err(Capacity) - never a panic or a silent truncation; Command::apwr negates the position; ORDER: every "
